@@ -373,6 +373,21 @@ impl<Db: Database> InternalStorage<Db> {
     }
 }
 
+/// Verification hook (only under `cfg(kani)`, which `cargo kani` sets): read-only access to the
+/// revision stamps for out-of-tree proof harnesses.
+#[cfg(kani)]
+impl<Db: Database> Storage<Db> {
+    pub fn verif_source_time_updated(&self, key: Key) -> Option<usize> {
+        self.internal
+            .get_source_node(key)
+            .map(|node| node.time_updated.into())
+    }
+
+    pub fn verif_current_epoch(&self) -> usize {
+        self.internal.current_epoch.into()
+    }
+}
+
 impl<Db: Database> Default for Storage<Db> {
     fn default() -> Self {
         Self::new()
